@@ -51,6 +51,8 @@ class Terms:
             t = d[3]
             fn = t["func"].get("fn", {})
             name = fn.get("method") or (fn.get("res_path") or fn.get("path") or "?").rsplit("::", 1)[-1]
+            if name in getattr(self, "tag_calls", ()):
+                name = "%s@%d" % (name, d[0])      # distinguish call sites (e.g. separate RNG draws)
             args = tuple(self.of_operand(a, depth + 1) for a in t["args"])
             r = ("call", name) + args
             return _apply_projs(self, r, proj, depth)
@@ -75,6 +77,11 @@ class Terms:
             inner = self.of_local(pl["l"], pl["p"], depth + 1)
         elif k == "unop" and rv["op"] == "Neg":
             inner = ("neg", self.of_operand(rv["a"], depth + 1))
+        elif k == "aggregate" and proj and proj[0]["k"] == "field" and isinstance(proj[0].get("i"), int) and proj[0]["i"] < len(rv.get("ops", [])) \
+                and rv.get("agg") in ("tuple", "array"):
+            # a field of a tuple literal is the operand it was built from
+            inner = self.of_operand(rv["ops"][proj[0]["i"]], depth + 1)
+            proj = proj[1:]
         else:
             inner = ("rv", k, l)
         return _apply_projs(self, inner, proj, depth)
